@@ -34,7 +34,7 @@ def run(ctx):
     dbdir = zc.scratch(ctx)
     cov = {}
     try:
-        d = vlib.tlc_must_pass(ctx, "EtxRoute", "MCEtxRoute_small.cfg" if quick else "MCEtxRoute_big.cfg", workers=16, timeout=3000)
+        d = vlib.tlc_must_pass(ctx, "EtxRoute", "MCEtxRoute_small.cfg" if quick else "MCEtxRoute_big.cfg", workers=16, timeout=3000 if quick else 7200)
         cov.update(states=d.distinct, transitions=d.generated, tlc_depth=d.depth)
         vlib.log("TLC EtxRoute: %d distinct, %.0fs" % (d.distinct, d.wall))
         # destination queue in isolation: every push/pop/drain/read/commit-reopen history of the bounded EtxQueue model on a real StateDB
